@@ -1,9 +1,9 @@
 //! qllex -- the REAL EdgeQL tokenizer of /repo behind a line protocol.
 //!
 //! The tokenizer sources are NOT copied: they are compiled straight out of
-//! /repo through `#[path]` (tokenizer.rs, validation.rs, keywords.rs,
-//! position.rs, helpers/*).  Only `bigdecimal` is replaced by a local shim
-//! (see ../bigdecimal-shim).
+//! /repo through `#[path]` in lib.rs (tokenizer.rs, validation.rs,
+//! keywords.rs, position.rs, helpers/*, ...).  Only `bigdecimal` is replaced
+//! by a local shim (see ../bigdecimal-shim).
 //!
 //! Protocol (one request per stdin line, one JSON answer per stdout line,
 //! stdout flushed after every answer):
@@ -39,16 +39,7 @@
 #![allow(dead_code)]
 #![allow(clippy::all)]
 
-#[path = "/repo/edb/edgeql-parser/src/helpers/mod.rs"]
-pub mod helpers;
-#[path = "/repo/edb/edgeql-parser/src/keywords.rs"]
-pub mod keywords;
-#[path = "/repo/edb/edgeql-parser/src/position.rs"]
-pub mod position;
-#[path = "/repo/edb/edgeql-parser/src/tokenizer.rs"]
-pub mod tokenizer;
-#[path = "/repo/edb/edgeql-parser/src/validation.rs"]
-pub mod validation;
+use edgeql_parser::{helpers, keywords, position, tokenizer};
 
 use std::fmt::Write as FmtWrite;
 use std::io::{self, BufRead, Write};
